@@ -54,6 +54,19 @@ def run_case(ctx, mr, case):
     ctx.stat('layout_' + case['layout'])
     ctx.stat('cid_' + case['cid_mode'])
     ctx.stat('otp_' + case['otp_mode'])
+    if 'otp' in kw and rng.random() < 0.4:
+        # an engine that has already served another console, and the OTP of this one given explicitly: the keys are those of the OTP
+        # given NOW (without an explicit OTP a keyed engine is taken as it is, by design)
+        from pyctr.crypto.engine import CryptoEngine
+        eng = CryptoEngine(dev=case['dev'])
+        other = NB.make_otp(random.Random(case['dseed'] ^ 0x77))
+        try:
+            eng.setup_keys_from_otp(other)
+        except Exception as ex:
+            ctx.diff('oracle', 'otp-setup-raises', case, 'keys', pyenv.errname(ex), 'setup_keys_from_otp raised on a valid decrypted OTP')
+        kw = dict(kw, crypto=eng)
+        kw.pop('dev', None)
+        ctx.stat('reused_engines')
     try:
         r = NAND(img, **kw)
     except Exception as ex:
@@ -211,8 +224,14 @@ def run_cases(ctx, cases, sweep=True):
 
 def run(ctx):
     proof = prove('C13', [], ['C13_props'], static_deps=['Proofs/NandProofs.v', 'Proofs/CtrProofs.v', 'Proofs/TwlProofs.v'])
-    forced = [dict(cid_mode='withheld', twl_std=True), dict(layout='retail'), dict(otp_mode='essential', essential=True)]
     cases = [NC.gen_case(ctx.rng) for _ in range(ctx.n(40, 800))]
+    # directed: CTRNAND as table entry 0 (first with whatever CID mode comes up, then until one has the CID withheld)
+    cases.append(NC.gen_case(ctx.rng, force=dict(ctr_slot0=True)))
+    for _ in range(40):
+        c0 = NC.gen_case(ctx.rng, force=dict(ctr_slot0=True))
+        if c0['cid_mode'] == 'withheld':
+            cases.append(c0)
+            break
     run_cases(ctx, cases)
 
     def search():
